@@ -126,6 +126,7 @@ EDITS = {
     "nonnum:nested_iou2d": [("set", "iou_2d_thresholds", [["x", "y", "z"]])],
     "empty:plane": [("set", "plane_distance_thresholds", [[]])],
     "task:foo": [("set", "evaluation_task", "foo")], "task:sensing": [("set", "evaluation_task", "sensing")],
+    "task:enum-sensing": [("set", "evaluation_task", "ENUM:sensing")], "task:enum-same": [("set", "evaluation_task", "ENUM:same")],
     "per_label:max_x_position": [("set", "max_x_position", [10.0, 20.0, 30.0])],
     # three target names, two of which resolve to the same label: still three target labels
     "labels:alias": [("set", "target_labels", ["car", "vehicle.car", "pedestrian"])],
@@ -138,13 +139,26 @@ def apply_edits(task, names):
     fid, base = TASKS[task]
     c = copy.deepcopy(base)
     c["evaluation_task"] = task
+    names = list(names)
     for nm in names:
         for e in EDITS[nm]:
             if e[0] == "del":
                 c.pop(e[1], None)
             else:
                 c[e[1]] = copy.deepcopy(e[2])
+                if e[2] == "ENUM:same":
+                    c[e[1]] = "ENUM:" + task
     return fid, c
+
+
+def _materialise(c):
+    """the configuration dict handed to the library: 'ENUM:<task>' stands for the EvaluationTask member (cases stay JSON-able)."""
+    from perception_eval.common.evaluation_task import EvaluationTask
+    c = copy.deepcopy(c)
+    t = c.get("evaluation_task")
+    if isinstance(t, str) and t.startswith("ENUM:"):
+        c["evaluation_task"] = EvaluationTask(t[5:])
+    return c
 
 
 def _valid_flat(v, n):
@@ -169,6 +183,8 @@ def must_reject(task_cfg_task, c):
     task = c.get("evaluation_task")
     if task is None:
         return ["missing-evaluation_task"]
+    if isinstance(task, str) and task.startswith("ENUM:"):
+        task = task[5:]
     if task not in TASKS:
         return ["unsupported-task"]
     if "label_prefix" not in c:
@@ -253,7 +269,8 @@ def run_unit(unit, acc):
                 for task in ("detection2d", "tracking2d", "classification2d"):
                     check_case(dict(kind="all_labels", order=order, target_labels=tl, task=task), acc)
     elif unit["kind"] == "sensing":
-        for edits in ([], ["task:foo"], ["task:detection"], ["del:evaluation_task"], ["add:target_uuids"]):
+        for edits in ([], ["task:foo"], ["task:detection"], ["del:evaluation_task"], ["add:target_uuids"], ["task:enum-sensing"], ["task:enum-detection"],
+                      ["task:enum-tracking2d"], ["task:enum-classification2d"]):
             check_case(dict(kind="sensing", edits=edits), acc)
     else:
         for n in (1, 2, 3):
@@ -325,7 +342,7 @@ def check_case(case, acc):
         why = must_reject(case["task"], c)
         acc.exec()
         try:
-            ec = PerceptionEvaluationConfig(["/nonexistent"], fid, _res_dir(), copy.deepcopy(c))
+            ec = PerceptionEvaluationConfig(["/nonexistent"], fid, _res_dir(), _materialise(c))
             got = "ok"
         except Exception as ex:  # noqa
             ec, got = None, "err:" + type(ex).__name__
@@ -397,14 +414,16 @@ def check_case(case, acc):
                 c.pop("evaluation_task")
             elif e == "add:target_uuids":
                 c["target_uuids"] = ["a"]
+            elif e.startswith("task:enum-"):
+                c["evaluation_task"] = "ENUM:" + e[len("task:enum-"):]
         acc.exec()
         try:
-            SensingEvaluationConfig(["/nonexistent"], "base_link", _res_dir(), c)
+            SensingEvaluationConfig(["/nonexistent"], "base_link", _res_dir(), _materialise(c))
             got = "ok"
         except Exception as ex:  # noqa
             got = "err:" + type(ex).__name__
         acc.compared()
-        want_reject = c.get("evaluation_task") != "sensing"
+        want_reject = c.get("evaluation_task") not in ("sensing", "ENUM:sensing")
         acc.state(("sensing", tuple(case["edits"]), got[:3]), nontrivial=want_reject)
         if want_reject and got == "ok":
             acc.violation("sensing:accepted-unsupported-task", "SensingEvaluationConfig accepted %r" % (c.get("evaluation_task"),), case)
